@@ -104,7 +104,7 @@ def check_C07(tier):
     items = 4 if tier == "quick" else 5
     consts = {"ScalerLen": 12, "MaxPiece": 13, "MaxItems": items, "Streams": "StreamsDef"}
     cfg = write_cfg("MC_CbFifo_" + tier, constants=None, view="view",
-                    invariants=["SplitInvariant", "RemainderInvariant", "BufIsSuffix", "OnElementBoundary"],
+                    invariants=["SplitInvariant", "RemainderInvariant", "BufIsSuffix", "OnElementBoundary", "CheckerAgrees"],
                     extra="CONSTANTS\n ScalerLen = 12\n MaxPiece = 13\n MaxItems = %d\n Streams <- StreamsDef" % items)
     r = tlc_model_check("MC_CbFifo", cfg, "mc_cbfifo_" + tier, expect_actions=["Feed", "Parse"], workers=8, timeout=3000)
     res.add_mc(r)
@@ -268,6 +268,9 @@ def check_C20(tier):
     res.distinct = nt
     res.extra["behaviours_exported"] = len(seen)
     if tier == "thorough":
+        # unbounded argument with the wire width (any number of wraps): Apalache inductive invariant
+        res.extra["apalache_inductive_obligations"] = apalache_inductive(
+            "CbEpoch", [("Init", "IndInv", 0), ("IndInit", "IndInv", 1), ("IndInit", "Recon", 0)])
         lines = open(trace).readlines()
         for line in lines:
             rec = json.loads(line)
@@ -350,6 +353,9 @@ def check_C19(tier):
     res.distinct = nt
     res.extra["binary_runs"] = nruns
     if tier == "thorough":
+        # unbounded argument with M = 2^32 (runs of any length): Apalache inductive invariant of the scan
+        res.extra["apalache_inductive_obligations"] = apalache_inductive(
+            "RunUnwrap", [("Init", "IndInv", 0), ("IndInit", "IndInv", 1)])
         for line in open(trace):
             rec = json.loads(line)
             if rec.get("runs") and len(rec["runs"][0]["rows"]) >= 2:
